@@ -588,7 +588,7 @@ class ExprMixin:
             nk = self.narrow.get(str(v.term))
             if nk is not None:
                 return self.getattr(Sym("ev", T.ev_of(v.term), nk), name)
-            if name in ("items", "keys", "values", "get", "copy", "startswith", "strip", "splitlines", "join", "format"):
+            if name in ("items", "keys", "values", "get", "copy", "startswith", "strip", "splitlines", "join", "format", "replace"):
                 return Builtin_valmethod(v, name)
             if name.startswith("__"):
                 raise Unsupported(f"attribute {name} of opaque value")
